@@ -823,6 +823,11 @@ def rule_rec_operands(ctx):
                 continue
             if not _unwraps(e) and not isinstance(e, ast.Call):
                 continue
+            # the conversion written in place: `cls.totype(rhs)` of a parameter / self
+            if isinstance(e, ast.Call) and isinstance(e.func, ast.Attribute) and e.func.attr == 'totype' and len(e.args) == 1 and not e.keywords \
+                    and isinstance(e.args[0], ast.Name) and (e.args[0].id in fi.params or e.args[0].id == 'self') \
+                    and not any(_unwraps(v) for v in conv.get(e.args[0].id, [])):
+                continue
             ok = False
             r.bad(Finding('R-rec-operands', _f(fi), 'operand:' + norm(e), '%s records `%s` instead of the operand itself: the graph keeps the '
                           'recording-time value and loses the dependency' % (fi.qualname, norm(e)), fi.file, s.call.lineno))
@@ -1499,4 +1504,148 @@ def rule_drv_dtype(ctx):
             else:
                 r.ok(construct='%s:%s' % (_f(fi), buf), nontrivial=True)
     r.floor = 5
+    return r
+
+
+# ----------------------------------------------------------------- R-uninit (uninitialised memory never reaches a result)
+UNINIT_SCOPE = ('algopy.utpm.utpm', 'algopy.tracer.tracer', 'algopy.globalfuncs', 'algopy.utils', 'algopy.special.special', 'algopy.linalg.compound')
+_EMPTY = ('empty', 'empty_like', 'ndarray')
+_ZERO = ('zeros', 'zeros_like', '__zeros__', '__zeros_like__')
+
+
+def _alloc_kind(c):
+    if not isinstance(c, ast.Call):
+        return None
+    d = dotted_name(c.func) or (c.func.attr if isinstance(c.func, ast.Attribute) else '')
+    last = d.split('.')[-1]
+    if last in _EMPTY and (d.startswith('numpy.') or d == last):
+        return 'empty'
+    if last in _ZERO:
+        return 'zeros'
+    return None
+
+
+def _uninit_findings(fn):
+    """[(allocation stmt, reason)] for buffers obtained from numpy.empty / empty_like in function node fn whose contents are only
+    partly defined before the buffer is read or leaves the function.  Decided cases: a whole-array definition (`b[...] = e`,
+    `b[:] = e`, numpy.copyto(b, e), b.fill(c), `f(.., out=b)` as a statement) makes the buffer defined; stores that all carry a
+    constant first index (`b[0, ...] = e`) into a buffer whose first extent is not the matching literal leave the other
+    coefficients undefined -> reported; anything else (stores under loop variables) is left undecided and silent."""
+    out = []
+    for st in walk_no_nested(fn):
+        if not (isinstance(st, ast.Assign) and len(st.targets) == 1 and isinstance(st.targets[0], ast.Name)):
+            continue
+        v = st.value
+        inner = v
+        # cls(numpy.empty(...)) / UTPM(numpy.empty(...)): the object's data is the buffer
+        wrapped = False
+        if isinstance(v, ast.Call) and norm(v.func) in ('cls', 'UTPM', 'algopy.UTPM', 'self.__class__') and len(v.args) == 1:
+            inner, wrapped = v.args[0], True
+        if _alloc_kind(inner) != 'empty':
+            continue
+        b = st.targets[0].id
+        whole, const_first, other = False, [], False
+        for s2 in walk_no_nested(fn):
+            if s2 is st:
+                continue
+            tg = []
+            if isinstance(s2, ast.Assign):
+                tg = s2.targets
+            elif isinstance(s2, ast.AugAssign):
+                tg = [s2.target]
+            for t in tg:
+                base = t
+                while isinstance(base, (ast.Subscript, ast.Attribute)):
+                    if isinstance(base, ast.Attribute) and base.attr != 'data':
+                        break
+                    base = base.value
+                if not (isinstance(base, ast.Name) and base.id == b and isinstance(t, ast.Subscript)):
+                    continue
+                sl = t.slice
+                first = sl.elts[0] if isinstance(sl, ast.Tuple) and sl.elts else sl
+                if isinstance(s2, ast.AugAssign):
+                    other = True        # an update reads the old contents
+                    out.append((st, 'is updated in place (`%s`) before it has been defined' % norm(s2)[:50]))
+                    break
+                if (isinstance(first, ast.Constant) and first.value is Ellipsis) or (isinstance(first, ast.Slice) and first.lower is None and first.upper is None and first.step is None
+                                                                                      and not (isinstance(sl, ast.Tuple) and any(not isinstance(e, ast.Slice) and not (isinstance(e, ast.Constant) and e.value is Ellipsis) for e in sl.elts[1:]))):
+                    whole = True
+                elif isinstance(first, ast.Constant) and isinstance(first.value, int):
+                    const_first.append((first.value, s2))
+                else:
+                    other = True
+            if isinstance(s2, ast.Expr) and isinstance(s2.value, ast.Call):
+                c = s2.value
+                if (dotted_name(c.func) or '') == 'numpy.copyto' and c.args and norm(c.args[0]) in (b, b + '.data', b + '[...]', b + '.data[...]'):
+                    whole = True
+                if isinstance(c.func, ast.Attribute) and c.func.attr == 'fill' and norm(c.func.value) in (b, b + '.data'):
+                    whole = True
+                if any(k.arg == 'out' and norm(k.value) in (b, b + '.data') for k in c.keywords):
+                    whole = True        # the callee's own obligations (E2 O6 / coverage) decide whether it defines all of `out`
+        if whole or other or not const_first:
+            continue
+        # only constant first indices: defined iff the first extent is a literal and every index below it is stored
+        shape = inner.args[0] if inner.args else None
+        ext = None
+        if isinstance(shape, ast.Tuple) and shape.elts and isinstance(shape.elts[0], ast.Constant) and isinstance(shape.elts[0].value, int):
+            ext = shape.elts[0].value
+        elif isinstance(shape, ast.BinOp) and isinstance(shape.op, ast.Add) and isinstance(shape.left, ast.Tuple) and shape.left.elts \
+                and isinstance(shape.left.elts[0], ast.Constant) and isinstance(shape.left.elts[0].value, int):
+            ext = shape.left.elts[0].value
+        have = {i for i, _ in const_first}
+        if ext is not None and set(range(ext)) <= have:
+            continue
+        out.append((st, 'only receives %s; the other coefficients keep whatever the allocator found in memory'
+                    % ', '.join('`%s`' % norm(s_)[:40] for _, s_ in const_first[:2])))
+    return out
+
+
+def rule_uninit(ctx):
+    r = RuleResult('R-uninit', 'no result is built on uninitialised memory: (a) the allocators named zeros (`__zeros__`, `__zeros_like__`, `UTPM.zeros`, '
+                               '`UTPM.zeros_like`, `ones_like`) obtain their storage from numpy.zeros / zeros_like - every accumulating kernel and every adjoint '
+                               'relies on it; (b) outside the kernels (which E2 covers with O6 / coverage) a buffer from numpy.empty / empty_like is defined as a '
+                               'whole before use - a buffer that only receives stores with a constant first index keeps uninitialised higher coefficients, whose '
+                               'contents depend on what ran before')
+    m = ctx.model
+    # positive example for the zero-count clause (b)
+    probe = ast.parse("def f(D, P, M):\n    ybar = numpy.empty((D, P, M))\n    ybar[0, ...] = numpy.eye(M)\n    return ybar\n").body[0]
+    if len(_uninit_findings(probe)) != 1:
+        r.unknown('R-uninit:selftest', 'the matcher no longer recognises its positive example')
+    # (a) allocator contract
+    n_alloc = 0
+    for modname in ('algopy.utpm.algorithms', 'algopy.utpm.utpm'):
+        mi = m.modules.get(modname)
+        if mi is None:
+            continue
+        for ci in mi.classes.values():
+            for name, fi in ci.methods.items():
+                if name.strip('_') not in ('zeros', 'zeros_like', 'ones_like'):
+                    continue
+                allocs = [c for c in walk_no_nested(fi.node) if _alloc_kind(c) is not None]
+                if not allocs:
+                    continue
+                n_alloc += 1
+                bad = [c for c in allocs if _alloc_kind(c) == 'empty']
+                if bad:
+                    r.bad(Finding('R-uninit', _f(fi), 'allocator:' + norm(bad[0])[:40], '%s hands out uninitialised memory (`%s`): callers accumulate into what it returns'
+                                  % (fi.qualname, norm(bad[0])[:50]), fi.file, true_line(bad[0].lineno)))
+                else:
+                    r.ok(construct='allocator:' + _f(fi), nontrivial=True, sample='%s: `%s`' % (fi.qualname, norm(allocs[0])[:50]))
+    if n_alloc < 4:
+        r.unknown('R-uninit:allocators', 'fewer than 4 zero-allocators found (%d)' % n_alloc)
+    # (b) partly defined uninitialised buffers
+    for modname in UNINIT_SCOPE:
+        mi = m.modules.get(modname)
+        if mi is None:
+            continue
+        fns = list(mi.functions.values())
+        for ci in mi.classes.values():
+            fns.extend(ci.methods.values())
+        for fi in fns:
+            hits = _uninit_findings(fi.node)
+            for st, why in hits:
+                r.bad(Finding('R-uninit', _f(fi), 'buffer:' + norm(st)[:50], '%s: `%s` %s' % (fi.qualname, norm(st)[:60], why), fi.file, true_line(st.lineno)))
+            if not hits:
+                r.ok(construct=_f(fi))
+    r.floor = 300
     return r
